@@ -2,13 +2,13 @@
 (mitmproxy/proxy/server.py: ConnectionHandler)."""
 import collections.abc
 
-from lib.coqterm import cbool, clist, cnat
+from lib.coqterm import cbool, clist
 
 ID = "C09"
 QUICK_N = 1500
 THOROUGH_N = 30000
 SHARD = 125
-COQ_PRELUDE = "From MV Require Import Model.ConnHandler.\n"
+COQ_PRELUDE = ""
 RULE = ("a case is a layer script (the commands the top layer answers to its n-th event: OpenConnection to one of 3 addresses "
         "or to no address, CloseConnection, half-close, SendData, StartHook, Log) plus <=30 action intents (complete a pending "
         "hook with/without kill, deliver data/EOF/OSError to a pending read, complete a pending connect ok/refused, idle "
@@ -51,7 +51,7 @@ def _cmds(rng, ncon, style):
             out.append(["close", c])
         elif r < 0.70:
             out.append(["half", c])
-        elif r < 0.82:
+        elif r < 0.78:
             out.append(["send", c])
         elif r < 0.94:
             out.append(["hook"])
@@ -76,8 +76,10 @@ def gen(rng, n, tier):
         for _ in range(rng.randint(2, 30)):
             r = rng.random()
             s = rng.below(16)
+            if style == "mixed" and rng.chance(0.3):
+                r = r * 0.88          # calmer runs: completions only
             if r < 0.36:
-                acts.append(["hook", s, rng.chance(0.12)])
+                acts.append(["hook", s, rng.chance(0.05)])
             elif r < 0.62:
                 acts.append(["read", s, rng.weighted([(5, "data"), (3, "eof"), (2, "err")])])
             elif r < 0.88:
@@ -435,73 +437,98 @@ def run_impl(case):
 
 
 # ------------------------------------------------------------------ Coq terms
-_HN = ["HClientConnected", "HClientDisconnected", "HServerConnect", "HServerConnected", "HServerConnectError",
-       "HServerDisconnected", "HLayer"]
-_RR = {"data": "RData", "eof": "REof", "err": "RErr"}
+# A case is shipped as one string literal decoded by Corr/C09.v (decode): numbers < 63 are chr(40+n),
+# larger ones a single quote followed by two such characters; 63 = END.
+END = 63
+_RR = {"data": 0, "eof": 1, "err": 2}
 
 
 def _tid(t):
-    return "TMain" if t[0] == "main" else f"(TConn {cnat(t[1])})" if t[0] == "c" else f"(THook {cnat(t[1])})"
+    return [0] if t[0] == "main" else [1, t[1]] if t[0] == "c" else [2, t[1]]
 
 
 def _cmd(c):
     k = c[0]
     if k == "open":
-        return "(COpen None)" if c[1] is None else f"(COpen (Some {cnat(c[1])}))"
+        return [2] if c[1] is None else [1, c[1]]
     if k in ("close", "half", "send"):
-        return f"({ {'close': 'CClose', 'half': 'CHalf', 'send': 'CSend'}[k]} {cnat(c[1])})"
-    return "CHook" if k == "hook" else "CLog"
+        return [{"close": 3, "half": 4, "send": 5}[k], c[1]]
+    return [6] if k == "hook" else [7]
 
 
 def _ev(e):
     k = e[0]
     if k == "hook":
-        return f"(EHook {_HN[e[1]]} {cnat(e[2])})"
+        return [0, e[1], e[2]]
     if k == "ev":
-        le = {"start": "LStart", "data": f"(LData {cnat(e[2])})", "closed": f"(LClosed {cnat(e[2])})",
-              "occ": f"(LOcc {cnat(e[2])} {cbool(e[3])})", "hookdone": f"(LHookDone {cnat(e[2])})"}[e[1]]
-        return f"(ELayer {le})"
+        return {"start": [1], "data": [2, e[2]], "closed": [3, e[2]], "occ": [4, e[2], int(e[3])],
+                "hookdone": [5, e[2]]}.get(e[1], [13])
     if k in ("connect", "read", "write", "eof", "close"):
-        return f"({ {'connect': 'EConnect', 'read': 'ERead', 'write': 'EWrite', 'eof': 'EEof', 'close': 'EClose'}[k]} {cnat(e[1])})"
+        return [{"connect": 6, "read": 7, "write": 8, "eof": 9, "close": 10}[k], e[1]]
     if k == "crash":
-        return "ECrash"
+        return [11]
     if k == "done":
-        return f"(EDone {_tid(e[1])} {cnat(e[2])})"
+        return [12] + _tid(e[1]) + [e[2]]
     if k == "hcrash":
-        return "(EDone TMain 99%nat)"   # never produced by the model: forces a disagreement
+        return [13]          # not decodable: forces a disagreement
     return None
 
 
+def _enc(nums):
+    out = []
+    for n in nums:
+        assert 0 <= n < 4096
+        if n < 63:
+            out.append(chr(40 + n))
+        else:
+            out.append("'" + chr(40 + n // 64) + chr(40 + n % 64))
+    return "".join(out)
+
+
 def coq_case(case, obs):
-    sched, trace = [], []
+    toks, last_snap = [], None
+    for cs in case["script"]:
+        for c in cs:
+            toks += _cmd(c)
+        toks.append(0)
+    toks.append(END)
+    trace = []
     for e in obs["log"]:
         k = e[0]
         if k == "run":
-            sched.append(f"I (Run {_tid(e[1])} {cbool(e[2])})")
+            toks += [5] + _tid(e[1]) + [int(e[2])]
         elif k == "act":
             a = e[1]
             if a == "hook":
-                sched.append(f"I (AHook {_tid(e[2])} {cbool(e[3])})")
+                toks += [0] + _tid(e[2]) + [int(e[3])]
             elif a == "read":
-                sched.append(f"I (ARead {cnat(e[2])} {_RR[e[3]]})")
+                toks += [1, e[2], _RR[e[3]]]
             elif a == "conn":
-                sched.append(f"I (AConn {cnat(e[2])} {cbool(e[3])})")
+                toks += [2, e[2], int(e[3])]
             elif a == "timeout":
-                sched.append("I ATimeout")
+                toks += [3]
             else:
-                sched.append(f"I (ABreak {cnat(e[2])})")
+                toks += [4, e[2]]
         elif k == "snap":
-            tr = clist([f"({cnat(x[0])}, ({cbool(x[1])}, {cbool(x[2])}))" for x in e[1]], "(nat * (bool * bool))%type")
-            sm = clist([f"({cnat(x[0])}, ({cnat(x[1])}, {cnat(x[2])}))" for x in e[2]], "(nat * (nat * nat))%type")
-            sched.append(f"Snap {tr} {sm}")
+            cur = [6, len(e[1])]
+            for x in e[1]:
+                cur += [x[0], int(x[1]), int(x[2])]
+            cur.append(len(e[2]))
+            for x in e[2]:
+                cur += [x[0], x[1], x[2]]
+            toks += [7] if cur == last_snap else cur
+            last_snap = cur
         elif k.startswith("x"):
             continue
         else:
             t = _ev(e)
             if t is not None:
-                trace.append(t)
-    script = clist([clist([_cmd(c) for c in cs], "cmd") for cs in case["script"]], "(list cmd)")
-    return f"mkCase {script} {clist(sched, 'sitem')} {clist(trace, 'ev')} {cbool(obs['main_done'])}"
+                trace += t
+    toks.append(END)
+    toks += trace + [END, int(obs["main_done"])]
+    s = _enc(toks)
+    assert '"' not in s
+    return f'"{s}"%string'
 
 
 # ------------------------------------------------------------------ oracle: the property on the real trace
